@@ -92,7 +92,8 @@ def gen_case(rng, car):
         return Get(A, rows + cols), "ttm", None
     x, N = gen_tt(rng, cplx)                       # apply_mask
     M_ = rng.choice([1, 2, 3, 6])
-    return Mask(x, [[rng.randrange(n) for n in N] for _ in range(M_)]), "apply_mask", None
+    neg = rng.random() < 0.4                        # negative entries count from the end, as in x[index] and in the dense array
+    return Mask(x, [[(rng.randrange(n) - n if (neg and rng.random() < 0.5) else rng.randrange(n)) for n in N] for _ in range(M_)]), "apply_mask" + ("-negative" if neg else ""), None
 
 def nontrivial(e, cat):
     return any(isinstance(a, (Lit3, Lit4)) and any(c.shape[-1] > 1 for c in a.cores[:-1]) for a in e.args)
